@@ -41,6 +41,8 @@ SOLVER_LEAVES = ('qacc', 'qfrc_constraint', 'efc_force', 'qacc_warmstart', 'qvel
                  'qfrc_smooth', 'qacc_smooth', 'act_dot', 'ten_velocity', 'actuator_velocity', 'subtree_linvel',
                  'subtree_angmom', 'qfrc_gravcomp', 'qfrc_fluid')
 
+FINDINGS = bool(os.environ.get('C44_FINDINGS'))   # include sub-domains excluded because of reported findings
+
 STATE_COMPONENTS = [  # documented order (mjtState bit i) -> mjData field
     ('TIME', 'time'), ('QPOS', 'qpos'), ('QVEL', 'qvel'), ('ACT', 'act'), ('HISTORY', 'history'),
     ('WARMSTART', 'qacc_warmstart'), ('CTRL', 'ctrl'), ('QFRC_APPLIED', 'qfrc_applied'),
@@ -130,31 +132,42 @@ def check_transparency(ck, lib, gm, seeds, worst, eager_samples):
 
   def kin(m, d):
     return smooth.com_pos(m, smooth.kinematics(m, d))
+  # eager (op-by-op) evaluation of the Newton solver is very slow: the transparency relation is checked on a copy of the
+  # model with few solver / line-search iterations and a non-zero tolerance, so that batch members leave the solver
+  # while_loop at different iteration counts (vmap must mask them) and eager evaluation stays affordable.
+  mx = c.mx.replace(opt=c.mx.opt.replace(iterations=6, ls_iterations=6, tolerance=jp.asarray(1e-6, dtype=c.mx.opt.tolerance.dtype)))
   fns = [('step', mjx.step, True), ('kinematics', kin, False)]
-  if gm.info['option']['integrator'] == 'RK4':
-    fns.append(('forward', mjx.forward, True))
   sigs = None
+  timing = {}
   for name, f, post in fns:
     jf = jax.jit(f)
     jvf = jax.jit(jax.vmap(f, in_axes=(None, 0)))
+    t0 = time.time()
     try:
-      outb = jax.device_get(jvf(c.mx, dxb))
+      outb = jax.device_get(jvf(mx, dxb))
     except Exception as e:
       raise Violation('jit(vmap(%s)) raised %s: %s' % (name, type(e).__name__, str(e)[:300]), bucket='A-exception')
+    timing[name + ':vmap'] = time.time() - t0
     singles = []
+    t0 = time.time()
     for i in range(B):
       dxi = jax.tree_util.tree_map(lambda x: x[i], dxb)
-      oi = jax.device_get(jf(c.mx, dxi))
+      oi = jax.device_get(jf(mx, dxi))
       singles.append(oi)
       compare_trees(jax, jax.tree_util.tree_map(lambda x: np.asarray(x)[i], outb), oi, 'vmap %s[%d] vs jit' % (name, i),
                     worst, post)
+    timing[name + ':jit'] = time.time() - t0
+    t0 = time.time()
     for i in range(min(eager_samples, B)):
       dxi = jax.tree_util.tree_map(lambda x: x[i], dxb)
       with jax.disable_jit():
-        oe = jax.device_get(f(c.mx, dxi))
+        oe = jax.device_get(f(mx, dxi))
       compare_trees(jax, singles[i], oe, 'jit %s vs eager [%d]' % (name, i), worst, post)
+    timing[name + ':eager'] = time.time() - t0
     if name == 'step':
-      sigs = [active_signature(o) for o in singles]
+      sigs = [active_signature(o) + (int(np.asarray(o._impl.solver_niter)),) for o in singles]
+  if os.environ.get('C44_PRINT'):
+    print('  A timing', {k: round(v, 1) for k, v in timing.items()}, 'nv', c.tm.nv, 'niter', [x[2] for x in sigs], flush=True)
   distinct = len(set(sigs)) if sigs else 1
   ncon_any = any(len(s[0]) for s in sigs)
   for i, s in enumerate(states):
@@ -240,6 +253,12 @@ def check_roundtrip(ck, lib, c, gm, s, steps):
   for n in names:
     if n in SKIP_RT or not hasattr(md, n):
       continue
+    if n in ('ne', 'nf', 'nl') and not FINDINGS:
+      # candidate finding F9: get_data writes the static MJX slot counts (all equality / limit rows, active or not)
+      # into ne/nf/nl while nefc and the efc arrays are compacted to active rows
+      if int(getattr(md, n)) != int(getattr(back, n)):
+        ck.label('B:finding-%s-static-count' % n)
+      continue
     a, b = getattr(md, n), getattr(back, n)
     if isinstance(a, (int, float, np.integer, np.floating)):
       ok = (a == b)
@@ -268,7 +287,7 @@ def check_roundtrip(ck, lib, c, gm, s, steps):
     raise Violation('get_data(put_data(d)).M != d.M\n %s\n %s' % (md.M[:12], back.M[:12]), bucket='B-field')
   if not np.allclose(md.qLD, back.qLD, rtol=1e-12, atol=1e-300) or not np.allclose(md.qLDiagInv, back.qLDiagInv, rtol=1e-12):
     raise Violation('qLD/qLDiagInv after get_data (mj_factorM of the transferred M) differ from the original', bucket='B-field')
-  for n in ('ncon', 'nefc', 'ne', 'nf', 'nl'):
+  for n in ('ncon', 'nefc') + (('ne', 'nf', 'nl') if FINDINGS else ()):
     if int(getattr(md, n)) != int(getattr(back, n)):
       raise Violation('get_data(put_data(d)).%s = %d, original %d' % (n, int(getattr(back, n)), int(getattr(md, n))),
                       bucket='B-counts')
